@@ -102,7 +102,14 @@ Lemma rotation_trace_ge_m1 A : rot A -> -1 <= mtrace3 A.
 Proof.
   intros HR. pose proof (rotation_trace_identity A HR) as Hid.
   destruct HR as [H _]. pose proof (orth_diag_bounds A H) as Hb.
-  destruct_tuples. al_unfold. nra.
+  destruct A as [[[[a b] c] [[d e] f]] [[g h] i]]. cbv [mtrace3 vx vy vz mr0 mr1 mr2 fst snd add NumR] in *.
+  remember (a + e + i) as T eqn:ET.
+  assert (Hp : 0 <= (1 + T) * (3 - T)).
+  { rewrite Hid. pose proof (Rle_0_sqr (b - d)). pose proof (Rle_0_sqr (c - g)). pose proof (Rle_0_sqr (f - h)).
+    unfold Rsqr in *. lra. }
+  destruct (Rle_dec (-1) T) as [Hle | Hn]; [exact Hle | exfalso].
+  assert (H1 : 1 + T < 0) by lra. assert (H2 : 0 < 3 - T) by lra.
+  pose proof (Rmult_lt_0_compat (- (1 + T)) (3 - T) ltac:(lra) H2). lra.
 Qed.
 Lemma improper_trace_le_1 A : orth A -> mdet3 A = -1 -> mtrace3 A <= 1.
 Proof.
@@ -115,23 +122,41 @@ Qed.
 (* sum_i s_i Q_ii <= s1 + s2 + det(Q) s3  for orthogonal Q and s1 >= s2 >= s3 >= 0 *)
 Definition wtrace (S : vec3R) (Q : mat3R) : R :=
   vx S * vx (mr0 Q) + vy S * vy (mr1 Q) + vz S * vz (mr2 Q).
+Lemma wt_pos s1 s2 s3 q1 q2 q3 : s2 <= s1 -> s3 <= s2 -> 0 <= s3 -> q1 <= 1 -> q2 <= 1 -> q3 <= 1 ->
+  s1 * q1 + s2 * q2 + s3 * q3 <= s1 + s2 + s3.
+Proof.
+  intros. pose proof (Rmult_le_pos s1 (1 - q1) ltac:(lra) ltac:(lra)).
+  pose proof (Rmult_le_pos s2 (1 - q2) ltac:(lra) ltac:(lra)).
+  pose proof (Rmult_le_pos s3 (1 - q3) ltac:(lra) ltac:(lra)). lra.
+Qed.
+Lemma wt_neg s1 s2 s3 q1 q2 q3 : s2 <= s1 -> s3 <= s2 -> 0 <= s3 -> q1 <= 1 -> q2 <= 1 -> q1 + q2 + q3 <= 1 ->
+  s1 * q1 + s2 * q2 + s3 * q3 <= s1 + s2 - s3.
+Proof.
+  intros. pose proof (Rmult_le_pos (s1 - s3) (1 - q1) ltac:(lra) ltac:(lra)).
+  pose proof (Rmult_le_pos (s2 - s3) (1 - q2) ltac:(lra) ltac:(lra)).
+  pose proof (Rmult_le_pos s3 (1 - (q1 + q2 + q3)) ltac:(lra) ltac:(lra)). lra.
+Qed.
+Lemma wt_low s1 s2 s3 q1 q2 q3 : s2 <= s1 -> s3 <= s2 -> 0 <= s3 -> -1 <= q1 -> -1 <= q2 -> -1 <= q3 ->
+  - (s1 + s2 + s3) <= s1 * q1 + s2 * q2 + s3 * q3.
+Proof.
+  intros. pose proof (Rmult_le_pos s1 (1 + q1) ltac:(lra) ltac:(lra)).
+  pose proof (Rmult_le_pos s2 (1 + q2) ltac:(lra) ltac:(lra)).
+  pose proof (Rmult_le_pos s3 (1 + q3) ltac:(lra) ltac:(lra)). lra.
+Qed.
 Lemma wtrace_upper S Q : orth Q -> vy S <= vx S -> vz S <= vy S -> 0 <= vz S ->
   wtrace S Q <= vx S + vy S + mdet3 Q * vz S.
 Proof.
-  intros H H1 H2 H3. pose proof (orth_diag_bounds Q H) as Hb.
+  intros H H1 H2 H3. pose proof (orth_diag_bounds Q H) as (Ha & Hb & Hc).
   destruct (orth_det_cases Q H) as [Hd | Hd]; rewrite Hd.
-  - unfold wtrace. destruct Hb as (Ha & Hb & Hc). nra.
-  - pose proof (improper_trace_le_1 Q H Hd) as Ht. unfold wtrace, mtrace3 in *.
-    destruct Hb as (Ha & Hb & Hc).
-    set (q1 := vx (mr0 Q)) in *. set (q2 := vy (mr1 Q)) in *. set (q3 := vz (mr2 Q)) in *.
-    set (s1 := vx S) in *. set (s2 := vy S) in *. set (s3 := vz S) in *.
-    assert (E : s1 * q1 + s2 * q2 + s3 * q3 = s3 * (q1 + q2 + q3) + (s1 - s3) * q1 + (s2 - s3) * q2) by ring.
-    rewrite E. nra.
+  - unfold wtrace. rewrite Rmult_1_l. apply wt_pos; lra.
+  - pose proof (improper_trace_le_1 Q H Hd) as Ht. unfold wtrace, mtrace3 in *. cbn [add NumR] in Ht.
+    replace (vx S + vy S + -1 * vz S) with (vx S + vy S - vz S) by ring. apply wt_neg; lra.
 Qed.
 Lemma wtrace_lower S Q : orth Q -> vy S <= vx S -> vz S <= vy S -> 0 <= vz S ->
   - (vx S + vy S + vz S) <= wtrace S Q.
 Proof.
-  intros H H1 H2 H3. pose proof (orth_diag_bounds Q H) as (Ha & Hb & Hc). unfold wtrace. nra.
+  intros H H1 H2 H3. pose proof (orth_diag_bounds Q H) as (Ha & Hb & Hc). unfold wtrace.
+  apply wt_low; lra.
 Qed.
 
 (* <R, M> = tr(R^T M) *)
